@@ -14,11 +14,11 @@ RULE = ("(i) hand-built frames for the `example` target: every token sequence of
         "with 3 allocatable registers R0,R1,R10 + aliasing half register R10l; pre = + pre-coloured R0/R1 defs, uses, moves and call-like clobbers; "
         "alias = + half-register defs/uses, pre-coloured R10/R10l, clobber of R10; usedef = + RegisterUseDef uses/defs/undefined-value markers; "
         "k2 / k5 = mixed alphabet with 2 / 5 allocatable registers; lean = def/use/mov/use3/jc) up to length quick: core 5, pre/alias/usedef/k2 4, "
-        "k5 3; thorough: core/pre/alias/usedef/k2 5, lean 6, k5 4; <= 7 virtual registers named in order of first definition, sources taken from "
+        "k5 3; thorough: core/pre/alias/usedef/k2/k5 5, lean 6; <= 7 virtual registers named in order of first definition, sources taken from "
         "registers defined earlier in the text, sources of commutative instructions ordered, at most one conditional jump (to every position, "
         "forward and backward), at least one instruction that reads a virtual register; (ii) every frame ppci.api.cc produces for the C corpus "
         "(vf/gen/ccorpus.py + 8 register-pressure functions: 12 live values, calls inside live ranges, loops, mixed 8/16/32/64-bit, pointers, "
-        "division, doubles) at -O0 and -O2, and ir_to_object produces for IR pressure modules (6/12 live values x plain/call/loop for every integer "
+        "division, doubles) at -O0 and -O2 (thorough: -O0, -O1, -O2, -Os), and ir_to_object produces for IR pressure modules (6/12 live values x plain/call/loop for every integer "
         "type, all ordered pairs of integer types mixed), on 13 target configurations.  Each allocated frame: fixpoint of location -> set of "
         "source values over the final instruction list (all paths), every read checked, plus a liveness-based overlap check.  "
         "distinct non-trivial = distinct (target, allocator events coalesced/constrained/frozen/spilled/rounds, set of registers used, frame size) "
@@ -601,7 +601,6 @@ class Recorder:
         self.lazy_text = _STATE["lazy_text"]
         for ins in frame.instructions:
             self.capture(ins)
-        self.npre = len(frame.instructions)
 
     def capture(self, ins):
         self.view[id(ins)] = (ins, list(ins.used_registers), list(ins.defined_registers))
@@ -996,11 +995,12 @@ def tiny_env(k):
                 RegisterClass("reg", [ir.i32, ir.ptr], ex.ExampleRegister, regs),
                 RegisterClass("hreg", [ir.i16], ex.HalfExampleRegister, [ex.R10l])])
 
-    _TINY[k] = (TinyArch(), _TINY["cls"], _TINY["cls"]["Stub"]())
+    from ppci.codegen.registerallocator import GraphColoringRegisterAllocator
+    arch, stub = TinyArch(), _TINY["cls"]["Stub"]()
+    # one allocator per configuration, reused for every frame like CodeGenerator does (a fresh allocator per frame would
+    # also never be freed: its lru_cache'd methods keep every instance alive)
+    _TINY[k] = (arch, _TINY["cls"], GraphColoringRegisterAllocator(arch, stub, None))
     return _TINY[k]
-
-
-PHYS = ("R0", "R1", "R10", "R10l")
 
 
 def build_tiny(prog, k):
@@ -1010,8 +1010,7 @@ def build_tiny(prog, k):
     from ppci.arch import example as ex
     from ppci.arch.stack import Frame
     from ppci.arch.generic_instructions import Label, RegisterUseDef
-    from ppci.codegen.registerallocator import GraphColoringRegisterAllocator
-    arch, cls, stub = tiny_env(k)
+    arch, cls, alloc = tiny_env(k)
     regs = {"R0": ex.R0, "R1": ex.R1, "R10": ex.R10, "R10l": ex.R10l}
 
     def reg(nm):
@@ -1068,7 +1067,6 @@ def build_tiny(prog, k):
         frame.instructions.append(ins)
     if n in labels:
         put_label(labels[n])
-    alloc = GraphColoringRegisterAllocator(arch, stub, None)
     return alloc, frame
 
 
@@ -1458,7 +1456,7 @@ def tiny_plan(ctx):
     """[(family, length)] explored completely in this tier"""
     if ctx.quick:
         return [("core", 5), ("pre", 4), ("alias", 4), ("usedef", 4), ("k2", 4), ("k5", 3)]
-    return [("core", 5), ("lean", 6), ("pre", 5), ("alias", 5), ("usedef", 5), ("k2", 5), ("k5", 4)]
+    return [("core", 5), ("lean", 6), ("pre", 5), ("alias", 5), ("usedef", 5), ("k2", 5), ("k5", 5)]
 
 
 def run(ctx):
@@ -1482,7 +1480,7 @@ def run(ctx):
     ctx.note("cpu_seconds_tiny_frames", round(c1 - c0))
     # real targets
     srcs = [n for n, _ in real_sources()]
-    levels = [0, 2]
+    levels = [0, 2] if ctx.quick else [0, 1, 2, "s"]
     targets = REAL_TARGETS
     real_items = [(t, n, lv) for n in srcs for t in targets for lv in levels]
     for t in targets:
